@@ -43,10 +43,16 @@
 #ifndef QSEL
 #define QSEL 0
 #endif
+#ifndef RAWCMD
+#define RAWCMD 0x10
+#endif
+#ifndef RAWHDR_OK
+#define RAWHDR_OK 1
+#endif
 #define VS_MAXSENT 2
 #define VS_CAP 48
 #define VS_DCAP 8		/* answer payload bytes recorded */
-#define VS_MAXANS 6
+#define VS_MAXANS 8
 #define RAWMAX 40		/* raw frame bytes */
 #define TUNMAX 40		/* tun packet bytes */
 
@@ -89,7 +95,7 @@ struct vin {
 	/* nondet inspection indices */
 	unsigned kf, kn, kd, ku;
 #ifdef STUB_SC
-	struct vsc { struct tun_user t; int ret; int d; } sc[4];
+	struct vsc { struct tun_user t; int ret; int d; unsigned char pk[VS_DCAP]; } sc[4];
 #endif
 	int qsel;
 	/* second query for two-step cells */
@@ -411,9 +417,15 @@ static int vs_slot_of(const struct query *q)
  *          3+4i / 4+4i = slot i's send-real-soon query / its duplicate (pre-state). -1: none; -2: id known but
  * question or destination differ. DNS ids of the sources are assumed pairwise distinct (setup). */
 #define VS_NSRC (1 + 4 * NU)
+/* names are C strings: bytes behind the terminator are not part of the question */
+static int vs_name_eq(const struct query *a, const struct query *b)
+{
+	size_t la = strlen(a->name);
+	return IN.kn > la || a->name[IN.kn] == b->name[IN.kn];
+}
 static int vs_match(const struct query *q, const struct query *s, int dup)
 {
-	if (q->type != s->type || q->name[IN.kn] != s->name[IN.kn]) return 0;
+	if (q->type != s->type || !vs_name_eq(q, s)) return 0;
 	return dup ? (q->fromlen == s->fromlen2 && same_addr(&q->from, &s->from2)) : (q->fromlen == s->fromlen && same_addr(&q->from, &s->from));
 }
 static int vs_classify(const struct query *q)
@@ -505,6 +517,11 @@ static void vs_sc_apply(struct tun_user *u, const struct vsc *h)
 {
 	int c;
 	u->outpacket = h->t.outpacket; u->outfragresent = h->t.outfragresent;
+#ifdef STUB_SC2
+	/* re-delivery cells: downstream queue empty (setup), so no queued packet is started; query memory and answer cache
+	 * are updated by the real helpers (see the stub) */
+	return;
+#endif
 	for (c = 0; c < OUTPACKETQ_LEN; c++) u->outpacketq[c] = h->t.outpacketq[c];
 	u->outpacketq_nexttouse = h->t.outpacketq_nexttouse; u->outpacketq_filled = h->t.outpacketq_filled;
 	for (c = 0; c < QMEMPING_LEN * 4; c++) u->qmemping_cmc[c] = h->t.qmemping_cmc[c];
@@ -532,6 +549,30 @@ static int send_chunk_or_dataless(int dns_fd, int userid, struct query *q)
 	 * IN.sc[symbolic] would turn every read into a byte_extract over all of IN) */
 	for (c = 0; c < 4; c++)
 		if (c == vs_sc_calls) { vs_sc_apply(u, &IN.sc[c]); d = IN.sc[c].d; ret = IN.sc[c].ret & 1; }
+#ifdef STUB_SC2
+	{
+		/* re-delivery cells: the answer bytes are explicit and the real save_to_qmem_pingordata()/save_to_dnscache() run,
+		 * exactly as in the real function (the emit-dup cells assert that on the real send_chunk_or_dataless) */
+		static char pkt[sizeof(((struct packet *) 0)->data) + 2];
+		int b;
+		for (c = 0; c < 4; c++)
+			if (c == vs_sc_calls)
+				for (b = 0; b < VS_DCAP; b++) pkt[b] = (char) IN.sc[c].pk[b];
+		vs_sc_calls++;
+		VASSUME(d >= 0 && d <= old.fragsize && d + 2 <= (int) sizeof(pkt));
+		vs_record(dns_fd, q, pkt, 2 + d, u->downenc);
+		if (q->id2 != 0) {
+			q->id = q->id2; q->fromlen = q->fromlen2; q->from = q->from2;
+			vs_record(dns_fd, q, pkt, 2 + d, u->downenc);
+		}
+		save_to_qmem_pingordata(userid, q);
+		save_to_dnscache(userid, q, pkt, 2 + d);
+		q->id = 0;
+		VASSUME(inv_user_x(u, 1));
+		VASSUME(sc_post_ok(&old, u));
+		return ret;
+	}
+#endif
 	vs_sc_calls++;
 	VASSUME(d >= 0 && d <= old.fragsize);
 	vs_record(dns_fd, q, NULL, 2 + d, u->downenc);
@@ -554,7 +595,7 @@ static int ans_is(const struct vs_ans *a, const char *s, int n, char enc)
 	return 1;
 }
 
-#if defined(G_ANS) || MODE == 4
+#if defined(G_ANS) || MODE == 4 || MODE == 5
 static void vs_assume_distinct_ids(void)
 {
 	unsigned short ids[VS_NSRC]; int valid[VS_NSRC], i, j, k;
@@ -566,6 +607,23 @@ static void vs_assume_distinct_ids(void)
 		ids[4 + 4 * i] = IN.u[i].q_sendrealsoon.id2; valid[4 + 4 * i] = IN.u[i].q_sendrealsoon.id != 0 && IN.u[i].q_sendrealsoon.id2 != 0;
 	}
 	for (j = 0; j < VS_NSRC; j++) for (k = 0; k < j; k++) VASSUME(!valid[j] || !valid[k] || ids[j] != ids[k]);
+}
+#endif
+#if MODE == 5
+static int vs_samename_nocase(const struct query *x, const struct query *y)
+{
+	int k;
+	if (x->type != y->type) return 0;
+	for (k = 0; k <= NL; k++) {
+		char c = x->name[k], d = y->name[k];
+		if (k >= 1 && k <= 4) {
+			if (c >= 'A' && c <= 'Z') c = (char) (c + 32);
+			if (d >= 'A' && d <= 'Z') d = (char) (d + 32);
+		}
+		if (c != d) return 0;
+		if (c == 0) return 1;
+	}
+	return 1;
 }
 #endif
 static void setup(void)
@@ -584,6 +642,9 @@ static void setup(void)
 		 * outpacketq[nexttouse].data to start_new_outpacket(); a symbolic position makes every byte read a byte_extract
 		 * over the whole slot table) */
 		VHINT_EQ(IN.u[i].outpacketq_nexttouse, QPOS);
+#if MODE == 5
+		VHINT_EQ(IN.u[i].outpacketq_filled, 0);	/* two-step cells: empty downstream queue (keeps the ring position concrete across both steps) */
+#endif
 		/* same for the write positions of the answer cache and the two query memories (strcmp()/memcmp() on
 		 * dnscache_q[symbolic].name are byte_extracts over the whole table otherwise) */
 		VHINT_EQ(IN.u[i].dnscache_lastfilled, DPOS);
@@ -597,7 +658,7 @@ static void setup(void)
 		vs_users[i] = IN.u[i];
 	}
 	users = vs_users;
-#if defined(G_ANS) || MODE == 4
+#if defined(G_ANS) || MODE == 4 || MODE == 5
 	vs_assume_distinct_ids();
 #endif
 	usercount = NU;
@@ -610,7 +671,7 @@ static void setup(void)
 	topdomain = "t.io";
 }
 
-#if MODE == 1 || MODE == 5
+#if MODE == 1
 static char ref_unp[64];
 static int ref_read;
 #endif
@@ -649,6 +710,114 @@ void harness(void)
 	}
 #endif
 
+#if MODE == 5
+	{
+		/* C16: request X (ping or data, cell) for an authorised session, then re-delivery X' of the same question with another
+		 * DNS id and (caseflip) changed letter case in the header characters */
+		static struct query q, q2;
+		static struct tun_user mid[NU];
+		int domain_len = IN.domain_len, len, a = ACT, k, n1, tun1, sc1, first = -1, second = -1;
+		q = IN.q;
+		VASSUME(q.name[NL] == 0 && q.id2 == 0 && q.id != 0);
+		VHINT_EQ(q.fromlen, AFLEN);
+		len = (int) strlen(q.name);
+		VASSUME(domain_len >= 6 && domain_len <= len && q.name[domain_len - 1] == '.');
+		VASSUME(a >= 0 && session_ok(&pre[a], &q, IN.now2, check_ip) && pre[a].authenticated);
+		/* X is new to the server: not the pending or cached question (in any letter case of its header characters), and
+		 * the query memories are empty (their false-positive behaviour is not the subject here) */
+		VASSUME(!vs_samename_nocase(&q, &pre[a].q) && !vs_samename_nocase(&q, &pre[a].q_sendrealsoon) &&
+			!vs_samename_nocase(&q, &pre[a].dnscache_q[0]));
+		VASSUME(pre[a].qmemping_type[0] == T_UNSET && pre[a].qmemdata_type[0] == T_UNSET);
+		preq = q;
+		vs_inq = &q;
+		handle_null_request(7, 3, &fds, &q, domain_len);
+		for (i = 0; i < NU; i++) mid[i] = users[i];
+		n1 = vs_nans; tun1 = vs_tunwrites; sc1 = vs_sc_calls;
+		q2 = preq;
+		q2.id = IN.id_b;
+		VASSUME(IN.id_b != 0);
+		for (k = 1; k <= 4; k++)
+			if ((IN.caseflip >> k) & 1) {
+				char c = q2.name[k];
+				if (c >= 'a' && c <= 'z') q2.name[k] = (char) (c - 32);
+				else if (c >= 'A' && c <= 'Z') q2.name[k] = (char) (c + 32);
+			}
+#if !IS_HEXCMD
+		VASSUME(IN.caseflip == 0);	/* ping: the answer cache compares names verbatim; the fingerprint path is the data cells' subject */
+#endif
+		vs_inq = &q2;
+		handle_null_request(7, 3, &fds, &q2, domain_len);
+		/* the repeat neither appends upstream data nor moves the downstream stream */
+		for (i = 0; i < NU; i++) {
+			VASSERT(same_packet(&mid[i].inpacket, &users[i].inpacket), "re-delivery appends nothing to the upstream reassembly buffer");
+			/* the repeat's ack fields are not applied a second time: position and fragment number stay, unless the packet in
+			 * flight is completed by a fragment that was due anyway (emission contract: len -> 0) */
+			VASSERT(users[i].outpacket.seqno == mid[i].outpacket.seqno && users[i].outpacket.fragment == mid[i].outpacket.fragment &&
+				((users[i].outpacket.offset == mid[i].outpacket.offset && users[i].outpacket.len == mid[i].outpacket.len) ||
+				 (users[i].outpacket.len == 0 && vs_sc_calls > sc1)) &&
+				users[i].outpacketq_filled == mid[i].outpacketq_filled && users[i].outpacketq_nexttouse == mid[i].outpacketq_nexttouse,
+				"re-delivery neither advances nor rewinds the downstream stream");
+			VASSERT(same_settings(&mid[i], &users[i]), "re-delivery changes no setting");
+		}
+		VASSERT(vs_tunwrites == tun1, "re-delivery delivers nothing to the tun device");
+		/* identical repeat while the original answer is cached: same payload */
+		for (k = 0; k < VS_MAXANS; k++) {
+			if (k < n1 && vs_ans[k].src == 0 && vs_ans[k].slot > 0) first = k;
+			if (k >= n1 && k < vs_nans) second = k;
+		}
+		VASSERT(vs_nans - n1 <= 1 || vs_sc_calls > sc1, "a recognised repeat gets at most one answer");
+		if (first >= 0 && IN.caseflip == 0 && vs_ans[first >= 0 ? first : 0].datalen <= (int) sizeof(users[0].dnscache_answer[0])) {
+			VASSERT(second >= 0, "an identical repeat of an answered query is answered from the cache");
+			if (second >= 0) {
+				VASSERT(vs_ans[second].id == IN.id_b && vs_ans[second].slot == 0, "the repeat's answer goes to the repeat");
+				VASSERT(vs_ans[second].datalen == vs_ans[first].datalen && vs_ans[second].d[IN.kd % VS_DCAP] == vs_ans[first].d[IN.kd % VS_DCAP],
+					"the repeat's answer carries the same payload as the original answer");
+				VREACH("repeat answered from cache");
+			}
+		}
+		if (first < 0) VREACH("original still pending when the repeat arrives");
+	}
+#endif
+
+#if MODE == 2
+	{
+		/* one datagram that passes raw_decode()'s header test (or not: RAWHDR_OK 0), raw command RAWCMD, slot UIDCELL */
+		static struct query q;
+		static char packet[sizeof(((struct packet *) 0)->data)];
+		int len = IN.rawlen, r;
+		q = IN.q;
+		VASSUME(q.name[NL] == 0 && q.fromlen2 == AFLEN);	/* whatever the previous datagram's decode left there */
+		VHINT_EQ(q.fromlen, AFLEN);
+		VASSUME(len >= 0 && len <= RAWMAX);
+		for (i = 0; i < RAWMAX; i++) packet[i] = IN.raw[i];
+#if RAWHDR_OK
+		packet[0] = (char) raw_header[0]; packet[1] = (char) raw_header[1]; packet[2] = (char) raw_header[2];
+		packet[3] = (char) (RAWCMD | ((UIDCELL) & 15));
+#else
+		VASSUME(len < RAW_HDR_LEN || packet[0] != (char) raw_header[0] || packet[1] != (char) raw_header[1] || packet[2] != (char) raw_header[2]);
+#endif
+		preq = q;
+		vs_inq = &q;
+		r = raw_decode(packet, len, &q, 3, &fds, 7);
+#if RAWHDR_OK
+		if (len >= RAW_HDR_LEN) { VASSERT(r == 1, "a datagram with the raw header is consumed as raw"); VREACH("raw frame dispatched"); }
+#else
+		VASSERT(r == 0, "a datagram without the raw header is left to the DNS decoder");
+#endif
+	}
+#endif
+
+#if MODE == 3
+	{
+		/* one packet from the tun device: tunnel_tun() with an arbitrary packet, destination slot = cell (TOCELL) */
+		/* the kernel hands over whole IP packets: 4-byte tun header + at least an IP header (or nothing / an error) */
+		VASSUME(IN.tunlen <= TUNMAX && (IN.tunlen <= 0 || IN.tunlen >= 24));
+		vs_inq = NULL;
+		(void) tunnel_tun(7, &fds);
+		if (IN.tunlen >= 24) VREACH("tun packet read");
+	}
+#endif
+
 #if MODE == 4
 	{
 		/* the real send_chunk_or_dataless() on a held query of slot UIDCELL, as called by the request handlers, by
@@ -674,6 +843,37 @@ void harness(void)
 		VASSERT(same_user(&pre[1 - UIDCELL], &users[1 - UIDCELL]), "other slot untouched");
 		VASSERT(vs_tunwrites == 0 && vs_nsent == 0, "no tun write, no raw datagram");
 		if (r == 1) VREACH("next queued packet started");
+#ifdef G_DUP
+		{
+			/* the answered query is remembered: answer cache (verbatim payload) and query memory (fingerprint) */
+			int fill = (DPOS + 1) % DNSCACHE_LEN, mfill_p = (MPOS + 1) % QMEMPING_LEN, mfill_d = (MPOS + 1) % QMEMDATA_LEN, j = IN.kf & 3;
+			size_t nl = strlen(hq0.name);
+			if (vs_ans[0].datalen <= (int) sizeof(u->dnscache_answer[0])) {
+				VASSERT(u->dnscache_lastfilled == fill && u->dnscache_answerlen[fill] == vs_ans[0].datalen, "answer stored in the next cache entry");
+				VASSERT(u->dnscache_q[fill].type == hq0.type && u->dnscache_q[fill].name[IN.kn] == hq0.name[IN.kn] && u->dnscache_q[fill].id != 0,
+					"cache entry is keyed by the answered question");
+				if ((int) (IN.kd % VS_DCAP) < vs_ans[0].datalen)
+					VASSERT((unsigned char) u->dnscache_answer[fill][IN.kd % VS_DCAP] == vs_ans[0].d[IN.kd % VS_DCAP], "cached payload is the payload that was sent");
+				VREACH("answer cached");
+			}
+			if (hq0.name[0] == 'P' || hq0.name[0] == 'p') {
+				static char cp[NL + 1], ref[8]; size_t rl = 7; int k, dot = -1, got = 0;
+				for (k = 0; k <= NL; k++) { cp[k] = hq0.name[k]; if (dot < 0 && cp[k] == '.') dot = k; }
+				if (dot >= 1) got = base32_ops.decode(ref, &rl, cp + 1, (size_t) (dot - 1));
+				if (dot >= 1 && got >= 4) {
+					VASSERT(u->qmemping_lastfilled == mfill_p && u->qmemping_type[mfill_p] == hq0.type &&
+						u->qmemping_cmc[mfill_p * 4 + j] == (unsigned char) ref[j], "ping fingerprint (decoded userid/ack/CMC bytes) remembered");
+					VREACH("ping remembered");
+				}
+			} else if (nl >= 5) {
+				char c0 = hq0.name[1 + j];
+				if (c0 >= 'A' && c0 <= 'Z') c0 = (char) (c0 + ('a' - 'A'));
+				VASSERT(u->qmemdata_lastfilled == mfill_d && u->qmemdata_type[mfill_d] == hq0.type &&
+					u->qmemdata_cmc[mfill_d * 4 + j] == (unsigned char) c0, "data query fingerprint (lower-cased header chars) remembered");
+				VREACH("data query remembered");
+			}
+		}
+#endif
 	}
 #endif
 
@@ -706,7 +906,19 @@ void harness(void)
 			VASSERT(users[i].seed == pre[i].seed && users[i].active == pre[i].active, "challenge and slot allocation change only in the version cell");
 #endif
 		}
+#if IS_HEXCMD && TOCELL >= 0 && ACT_VALID
+		/* a completed upstream packet addressed to a raw-mode session is forwarded as one raw datagram to that session */
+		if (vs_nsent > 0) {
+			VASSERT(vs_nsent == 1 && pre[TOCELL].conn == CONN_RAW_UDP && pre[TOCELL].active && pre[TOCELL].authenticated && !pre[TOCELL].disabled &&
+				pre[TOCELL].tun_ip == IN.zdst && pre[a].authenticated && session_ok(&pre[a], &preq, IN.now, check_ip),
+				"a raw datagram leaves only as forwarding from an authenticated session to the live raw-mode owner of the address");
+			VASSERT(vs_sent[0].tolen == pre[TOCELL].q.fromlen && same_addr(&vs_sent[0].to, &pre[TOCELL].q.from) || TOCELL == UIDCELL,
+				"and goes to that session's last source address");
+			VREACH("forwarded as raw datagram");
+		}
+#else
 		VASSERT(vs_nsent == 0, "DNS-mode requests never emit raw datagrams");
+#endif
 #if IS_CMD('V')
 		/* slot allocation: only a free or expired, non-disabled slot is (re)used; it starts unauthenticated */
 		for (i = 0; i < NU; i++) {
@@ -805,6 +1017,116 @@ void harness(void)
 	}
 #endif
 
+#if MODE == 2 && defined(G_AUTH)
+	{
+		int a = ACT;
+		int changed[NU];
+		for (i = 0; i < NU; i++) changed[i] = !same_user(&pre[i], &users[i]);
+#if RAWHDR_OK && RAWCMD == 0x20 && TOCELL >= 0
+		{
+			/* forwarding to a DNS-mode session may release that session's held queries; nothing else is answered */
+			int k;
+			for (k = 0; k < VS_MAXANS; k++)
+				if (k < vs_nans) VASSERT(vs_ans[k].slot == 1 + 2 * TOCELL || vs_ans[k].slot == 2 + 2 * TOCELL,
+							 "a raw data frame triggers DNS answers only to held queries of the session it is forwarded to");
+		}
+#else
+		VASSERT(vs_nans == 0, "raw frames never produce DNS answers directly");
+#endif
+		for (i = 0; i < NU; i++) {
+			VASSERT(pre[i].authenticated == users[i].authenticated && pre[i].seed == users[i].seed && pre[i].active == users[i].active,
+				"raw frames never change the DNS-login flag, the challenge or slot allocation");
+#if RAWHDR_OK && RAWCMD == 0x10
+			if (i == a && !pre[i].authenticated_raw && users[i].authenticated_raw) {
+				VASSERT(pre[i].active && !pre[i].disabled && pre[i].authenticated && live(&pre[i], IN.now), "raw login only for a live session that passed the DNS login");
+				VASSERT(vs_lc_calls == 2 && vs_lc_seed[0] == (int) ((unsigned) pre[i].seed + 1) && vs_lc_pass[0] == password,
+					"raw login response is checked against the digest of challenge+1 with the server password");
+				VASSERT(IN.rawlen - RAW_HDR_LEN >= 16 && memcmp(IN.raw + RAW_HDR_LEN, IN.hash[0], 16) == 0, "received raw response equals that digest");
+				VASSERT(vs_lc_seed[1] == (int) ((unsigned) pre[i].seed - 1), "the reply carries the digest of challenge-1");
+				VASSERT(vs_nsent == 1 && vs_sent[0].len == RAW_HDR_LEN + 16 && vs_sent[0].data[RAW_HDR_LEN + (IN.kf & 15)] == (unsigned char) IN.hash[1][IN.kf & 15],
+					"one raw login reply with that digest");
+				VASSERT(users[i].conn == CONN_RAW_UDP, "session switched to raw mode");
+				VREACH("raw login accepted");
+			} else
+#endif
+			VASSERT(pre[i].authenticated_raw || !users[i].authenticated_raw, "raw flag rises only through a correct raw login for the named slot");
+			if (i != a) {
+#if RAWHDR_OK && RAWCMD == 0x20
+				if (changed[i]) {
+					VASSERT(pre[i].active && pre[i].authenticated && !pre[i].disabled && pre[i].last_pkt + 60 > IN.now && pre[i].tun_ip == IN.zdst,
+						"a raw data frame reaches another session only by forwarding to the live owner of the destination address");
+					VASSERT(same_settings(&pre[i], &users[i]) && pre[i].last_pkt == users[i].last_pkt, "forwarding changes no setting of the target");
+				}
+#else
+				VASSERT(!changed[i], "only raw data frames can touch another session");
+#endif
+			}
+		}
+#if RAWHDR_OK && (RAWCMD == 0x20 || RAWCMD == 0x30)
+		{
+			int ok = a >= 0 && session_ok(&pre[a >= 0 ? a : 0], &preq, IN.now, check_ip) && pre[a >= 0 ? a : 0].authenticated &&
+				 pre[a >= 0 ? a : 0].authenticated_raw && IN.rawlen >= RAW_HDR_LEN;
+			if (!ok) {
+				for (i = 0; i < NU; i++) VASSERT(!changed[i], "raw data/ping from a session without raw login (or from another source) changes nothing");
+				VASSERT(vs_tunwrites == 0 && vs_nsent == 0, "and causes no tun write and no reply");
+				VREACH("raw frame refused");
+			} else {
+				if (vs_tunwrites > 0 || vs_nsent > 0) VREACH("raw frame served");
+				VASSERT(same_settings(&pre[a], &users[a]), "raw data/ping change no session setting");
+			}
+		}
+#elif RAWHDR_OK && RAWCMD == 0x10
+		if (a >= 0 && changed[a]) {
+			/* a correct raw login may rebind the source address: nothing else of the session's identity changes */
+			VASSERT(users[a].authenticated_raw == 1 && users[a].encoder == pre[a].encoder && users[a].downenc == pre[a].downenc &&
+				users[a].fragsize == pre[a].fragsize && users[a].tun_ip == pre[a].tun_ip && users[a].lazy == pre[a].lazy &&
+				same_streams(&pre[a], &users[a]), "raw login changes only liveness, binding, connection type and the raw flag");
+		}
+		VASSERT(vs_tunwrites == 0, "raw login writes nothing to the tun device");
+#else
+		for (i = 0; i < NU; i++) VASSERT(!changed[i], "unknown raw command or no raw header: no state change");
+		VASSERT(vs_tunwrites == 0 && vs_nsent == 0, "and nothing is sent");
+#endif
+	}
+#endif
+
+#if MODE == 3 && defined(G_AUTH)
+	{
+		uint32_t dst;
+		int k;
+		memcpy(&dst, &IN.tun[20], 4);	/* ip_dst of the packet behind the 4-byte tun header */
+		VASSERT(vs_tunwrites == 0, "a packet from the tun device is never written back to it");
+		for (i = 0; i < NU; i++) {
+			int touched = !same_user(&pre[i], &users[i]);
+			for (k = 0; k < VS_MAXANS; k++)
+				if (k < vs_nans && (vs_ans[k].slot == 1 + 2 * i || vs_ans[k].slot == 2 + 2 * i)) touched = 1;
+			if (touched) {
+				VASSERT(IN.tunlen > 0, "nothing happens without a packet");
+				VASSERT(pre[i].active && pre[i].authenticated && !pre[i].disabled && pre[i].last_pkt + 60 > IN.now && pre[i].tun_ip == dst,
+					"a tun packet is handed only to the live, logged-in session that owns its destination address");
+				VASSERT(same_settings(&pre[i], &users[i]) && pre[i].last_pkt == users[i].last_pkt && same_packet(&pre[i].inpacket, &users[i].inpacket),
+					"delivery changes neither settings nor liveness nor the upstream buffer of the target");
+#if TOCELL >= 0
+				VREACH("tun packet queued or sent");
+#endif
+			}
+		}
+		for (k = 0; k < VS_MAXANS; k++)
+			if (k < vs_nans) VASSERT(vs_ans[k].slot > 0, "answers triggered by a tun packet go to held queries only");
+		if (vs_nsent > 0) {
+			/* raw-mode session: one raw datagram to the address of its last frame */
+#if TOCELL >= 0
+			VASSERT(vs_nsent == 1 && pre[TOCELL].conn == CONN_RAW_UDP && pre[TOCELL].active && pre[TOCELL].authenticated &&
+				!pre[TOCELL].disabled && pre[TOCELL].last_pkt + 60 > IN.now && pre[TOCELL].tun_ip == dst,
+				"raw delivery only to the live logged-in raw-mode owner of the address");
+			VASSERT(vs_sent[0].tolen == pre[TOCELL].q.fromlen && same_addr(&vs_sent[0].to, &pre[TOCELL].q.from), "sent to that session's last source address");
+#else
+			VASSERT(0, "no owner, yet a datagram was sent");
+#endif
+		}
+	}
+#endif
+
 #if MODE == 1 && defined(G_FRAG)
 	{
 		int a = ACT;
@@ -885,7 +1207,7 @@ void harness(void)
 					if (h->id2 != 0 && h->id2 == sid) {
 						found2 = 1;
 						VASSERT(!answered[j], "a remembered duplicate is not yet answered");
-						VASSERT(h->type == src[j]->type && h->name[IN.kn] == src[j]->name[IN.kn],
+						VASSERT(h->type == src[j]->type && vs_name_eq(h, src[j]),
 							"a remembered duplicate asks the same question as the held query it is attached to");
 						VASSERT(isdup ? (h->fromlen2 == src[j]->fromlen2 && same_addr(&h->from2, &src[j]->from2))
 							      : (h->fromlen2 == src[j]->fromlen && same_addr(&h->from2, &src[j]->from)),
